@@ -200,9 +200,6 @@ func (w *tkWorld) present(hd *tkHandler, f forged, kv kycVar, baseHash [32]byte,
 	w.out.Count("msg." + verdict)
 	w.out.Count("class." + f.Class + "." + verdict)
 	w.out.Count("handler." + hd.name + "." + verdict)
-	if dirty {
-		w.out.Count("diag.rejected-after-writing-into-its-cache." + hd.name)
-	}
 	if f.Class == "valid" && err != nil && !hd.onlyValid {
 		panic(fmt.Sprintf("ticket suite: the reference message of %s does not succeed (phase %d): %v", hd.name, w.phase, err))
 	}
@@ -229,6 +226,14 @@ func (w *tkWorld) present(hd *tkHandler, f forged, kv kycVar, baseHash [32]byte,
 	detail := func() string {
 		return fmt.Sprintf("phase %d block time %d.%09d vault%s: %s presented with a ticket of class %q (alg EdDSA=%v, valid Ed25519 signature of key %d, exp %d, noexp=%v): handler returned %v, state changed=%v; token %s",
 			w.phase, w.now, w.nanos, w.pool.IDs(w.vault), hd.name, f.Class, f.EdDSA, f.SignedBy, f.ExpSec, f.NoExp, err, changed, trunc(f.Tok, 400))
+	}
+	if dirty {
+		// diagnostic only (the writes are discarded with the failing message): an effect preceded the rejection
+		if ticketOK {
+			w.out.Count("diag.authentic-ticket-rejected-after-writing-into-its-cache." + hd.name)
+		} else {
+			w.out.Count("diag.FORGED-ticket-rejected-after-writing-into-its-cache." + hd.name)
+		}
 	}
 	if !ticketOK {
 		if err == nil {
